@@ -362,7 +362,7 @@ def execute(cfg, chooser=None, max_rounds=400):
     kinds = [cfg['nested']]
     # every round of a stepping ensemble costs each live member one iteration and at least one evaluation
     g_, e_ = (lim[0], lim[1]) if lim else (None, None)
-    tr.max_map_calls = cfg.get('max_map_calls', g_ + 10 if g_ is not None else (e_ + 50 if e_ is not None else 400))
+    tr.max_map_calls = cfg.get('max_map_calls', g_ + 10 if g_ is not None else (e_ + 25 if e_ is not None else 400))
     old = sys.stdout
     sys.stdout = io.StringIO()
     try:
